@@ -1303,6 +1303,11 @@ class BadCatalogue:
             kw['rr_name'] = long_
             if meth == 'add_fp':
                 kw.update(self.content_args(op))
+            if meth == 'add_directory' and m.level < 4 and not m.relocated_dirs():
+                # below a directory at depth 7 if there is one: the refusal then comes on the relocation path
+                c7 = sorted(p_ for p_, e in m.t['iso'].items() if e['type'] == 'dir' and depth(p_) == 7)
+                if c7 and not m.reloc_name_taken():
+                    kw = {'iso_path': join(c7[op.get('i', 0) % len(c7)], nm['iso']), 'rr_name': long_}
             return meth, kw
         return b
 
